@@ -68,7 +68,8 @@ def run(ctx, replay):
         "evaluations": n, "distinct_nontrivial": len(cases) + sum(s.get("events", 0) for s in s2) - 0,
         "rule": "small scope: every (matrix, permutation) pair of the TLC enumeration (anonymous / one / two named dimensions, value "
                 "lists of length 0-2, <= 2 adjustments with every skip kind and well-/ill-formed dimension sets, permutations of every "
-                "arity incl. unknown dimensions); beyond: seeded random matrices up to 6 dimensions and 20 adjustments. Distinct by "
+                "arity incl. unknown dimensions); beyond: seeded random matrices up to 6 dimensions (some with 17-48 values) and 20 adjustments "
+                "(null entries, entries without `with`, boundary-shifted tuples). Distinct by "
                 "construction (TLC set); random cases counted as generated.",
         "exhaustive": True,
         "accepted_permutations": acc, "rejected_permutations": n - acc,
